@@ -176,3 +176,23 @@ def parse_sim_files(prefix):
         if states:
             out.append(states)
     return out
+
+
+def op_of_node_label(label, var="op"):
+    """value of the history variable `var` in a dumped node label ('/\\ a = ..\\n/\\ op = <<..>>')"""
+    txt = label.replace("\\n", "\n").replace('\\"', '"').replace("\\\\", "\\")
+    parts = re.split(r"(?:^|\n)/\\ ", txt)
+    for p in parts:
+        p = p.strip()
+        if p.startswith(var + " ="):
+            return parse_value(" ".join(p.split("=", 1)[1].split()))
+    return None
+
+
+def relabel_by_dst_op(adj, labels, var="op"):
+    """replace every edge label by the history variable of its destination node (graph dumped WITHOUT a VIEW)"""
+    ops = {n: op_of_node_label(l, var) for n, l in labels.items()}
+    out = {}
+    for n, es in adj.items():
+        out[n] = sorted({(repr(ops[d]), d) for _, d in es})
+    return out, ops
